@@ -9,6 +9,7 @@ fn usage() -> ! {
 
 fn main() {
     install_panic_hook();
+    vcheck::capture_stdout();
     let args: Vec<String> = std::env::args().skip(1).collect();
     if args.is_empty() {
         usage();
